@@ -146,46 +146,34 @@ def boxed_model(c, extra=(), box=8, timeout_ms=3000):
     return model_env(s.model(), c)
 
 
-def spread_model(c, seed=0, timeout_ms=3000):
-    """Assignment with pairwise distinct, non-trivial values (better for the concretised twin)."""
+def spread_model(c, seed=0, timeout_ms=2500):
+    """Assignment with distinct, non-trivial values (better for the concretised twin than z3's favourite
+    zeros).  Fresh non-incremental solver per attempt (keeps z3 on its QF_NRA procedure and its timeout)."""
     import random
-    rnd = random.Random(seed)
-    s = z3.Solver()
-    s.set("timeout", timeout_ms)
     from symx import axioms as _axm
+    rnd = random.Random(seed)
     bcs = c.base_constraints()
-    for a in bcs:
-        s.add(a)
-    for a in _axm.instances(bcs, c):
-        s.add(a)
-    names = list(c.symbols.items())
-    # try to pin every symbol near a random dyadic value; drop pins that make it unsat
+    axs = list(_axm.instances(bcs, c))
     pins = []
-    for name, t in names:
-        if not z3.is_real(t) or name.startswith("sqrt_"):
+    for name, t in c.symbols.items():
+        if not z3.is_real(t) or name.startswith("sqrt_") or "!" in name:
             continue
         v = Fraction(rnd.randint(-24, 24), 8)
         if v == 0:
             v = Fraction(3, 8)
-        pins.append((t, v))
-    lits = []
-    for i, (t, v) in enumerate(pins):
-        b = z3.Bool("pin!%d" % i)
-        s.add(z3.Implies(b, z3.And(t >= z3.RatVal(v.numerator, v.denominator) - z3.RatVal(1, 16),
-                                   t <= z3.RatVal(v.numerator, v.denominator) + z3.RatVal(1, 16))))
-        lits.append(b)
-    r = s.check(*lits)
-    if r == z3.unsat:
-        core = set(x.get_id() for x in s.unsat_core())
-        for _ in range(6):
-            lits = [b for b in lits if b.get_id() not in core]
-            r = s.check(*lits)
-            if r != z3.unsat:
-                break
-            core = set(x.get_id() for x in s.unsat_core())
-    if r != z3.sat:
-        return boxed_model(c)
-    return model_env(s.model(), c)
+        lo, hi = v - Fraction(1, 16), v + Fraction(1, 16)
+        pins.append(z3.And(t >= z3.RatVal(lo.numerator, lo.denominator), t <= z3.RatVal(hi.numerator, hi.denominator)))
+    for frac in (1.0, 0.5, 0.2):
+        k = int(len(pins) * frac)
+        s = z3.Solver()
+        s.set("timeout", timeout_ms)
+        for a in bcs + axs:
+            s.add(a)
+        for pcon in rnd.sample(pins, k) if k < len(pins) else pins:
+            s.add(pcon)
+        if s.check() == z3.sat:
+            return model_env(s.model(), c)
+    return boxed_model(c, timeout_ms=timeout_ms)
 
 
 def _raised_in_repo(exc):
